@@ -45,6 +45,7 @@ def setup(ctx):
     ctx.require("monitor", "error_points", 98)
     ctx.require("monitor", "defective_imports", 100)
     ctx.require("monitor", "roundtrip_hosts", 60)
+    ctx.require("monitor", "roundtrip_stores_with_twin_names", 8)
     ctx.require("monitor", "roundtrip_store_sizes", 6)
     ctx.require("monitor", "syscall_injections", 10)
     ctx.require("monitor", "failed_then_next_sequences", 40)
@@ -668,6 +669,11 @@ NAME_PARTS = ["example.org", "::1", "[::1]", "2001:db8::1", "a.b.c", "x:y", 'q"u
               "\uff45xample.org", "stra\u00dfe.example", "strasse.example", "\u0130stanbul.example", "i\u0307stanbul.example", "\u200bzero-width.example", "zero-width.example"]
 
 
+TWIN_GROUPS = [["example.org", "EXAMPLE.ORG", "Example.Org"], ["file.example", "File.Example", "\ufb01le.example"], ["cafe\u0301.example", "caf\u00e9.example", "CAF\u00c9.example"],
+               ["\u212b.example", "\u00c5.example", "A\u030a.example", "\u00e5.example"], ["\u0130stanbul.example", "i\u0307stanbul.example", "istanbul.example"],
+               ["\u200bzero-width.example", "zero-width.example", "Zero-Width.example"], ["stra\u00dfe.example", "strasse.example", "STRASSE.example"], ["::1", "0:0:0:0:0:0:0:1", "::0001"]]
+
+
 def run_roundtrip(ctx, tmp, rng):
     from pathlib import Path
 
@@ -685,6 +691,12 @@ def run_roundtrip(ctx, tmp, rng):
             nm = rng.choice(NAME_PARTS) if rng.random() < 0.7 else rng.choice(NAME_PARTS) + rng.choice(NAME_PARTS)
             port = rng.choice([1965, 1, 65535, 1966, 300])
             names.add((nm, port))
+        g_idx = trial * max(1, ctx.nshards) + ctx.shard
+        if g_idx < len(TWIN_GROUPS):
+            # the first stores of every run hold names that differ only in letter case / Unicode form / an invisible
+            # character, all on ONE port: the store keeps them apart, so does a round trip
+            names = {(nm, 1965) for nm in TWIN_GROUPS[g_idx]} | {("plain.example", 1965)}
+            ctx.count("monitor", "roundtrip_stores_with_twin_names")
         for nm, port in sorted(names):
             ci = rng.randint(0, 2)
             a.trust(nm, port, cert_obj(ci)[0])
